@@ -143,7 +143,11 @@ pub fn run(tier: &str, seed: u64, replay: Option<String>) -> i32 {
             let k = crate::engines::disk::kind_of(&j.file);
             k == FileKind::Kyg || k == FileKind::Tbl
         });
-        let mut v = diskrun::stratified(main, 3, &mut rng);
+        // 3 per cell; 10 per cell for blocks with non-ASCII text (fewer of them, and what goes
+        // wrong there depends on where exactly the multi-byte characters sit)
+        let (na, plain): (Vec<DJob>, Vec<DJob>) = main.into_iter().partition(|j| j.cell.contains("|non-ascii block"));
+        let mut v = diskrun::stratified(plain, 3, &mut rng);
+        v.extend(diskrun::stratified(na, 10, &mut rng));
         v.extend(diskrun::stratified(side, 12, &mut rng));
         v
     };
